@@ -230,6 +230,23 @@ CLAIMED = {
               "against a reference deframer, callee contract for Command.from_frame; z3 QF_BV",
     note=TB + "; specs/deframe.py is the trusted oracle; payload-malformed frames set aside as the property says; induction "
          "over the stream is argued, not mechanised"),
+ "C20": dict(
+    category="proof",
+    text="Serial receive paths (LUBA, SCI): for every observed 16-/24-bit frame and every remembered device type, every "
+         "subscriber queue is proved to receive exactly one report whose command carries the observed bits and was decoded "
+         "by from_frame under exactly the device type of the immediately preceding enable-device-type frame (memory := param "
+         "for EDT, 0 otherwise) and the driver's instance map; the argument handed to from_frame is proved to be a "
+         "ForwardFrame. DistributorQueue and the HID callback registry: every subscriber at the time gets every report, "
+         "unsubscribing stops delivery to that subscriber only. Tridonic watcher: one iteration of the real loop is verified, "
+         "with the loop rule, against a reference transducer written from the property, for every pending state (none / "
+         "send-twice command / query), every well-formed gateway report and the timer outcome as an input: queries paired "
+         "with their answer or 'no answer', send-twice commands reported once as good or flagged failed, each forward frame "
+         "reported exactly once and decoded in context.",
+    design_ref="DESIGN.md 6 (C20), 3.9",
+    technique="contract-based deductive verification: step-function refinement via the loop rule, callee contract for "
+              "Command.from_frame, assumed asyncio contracts; z3 QF_BV",
+    note=TB + "; the timer is an input (which of 'timeout' / 'report' happens first is not decided: real time is out of "
+         "reach); callbacks are recorded at call_soon, their later execution by the event loop is assumed"),
 }
 
 NA_REASON = "check under construction in this round (no obligations built yet); see DESIGN.md section 6"
